@@ -209,12 +209,12 @@ std::string join_decls(const std::vector<MDecl>& ds)
     }
     return s;
 }
-std::string join_params(const std::vector<MParam>& ps)
+std::string join_params(const std::vector<MParam>& ps, const char* sep = ", ")
 {
     std::string s;
     for (auto& p : ps) {
         if (!s.empty())
-            s += ", ";
+            s += sep;
         s += p.text;
     }
     return s;
@@ -280,7 +280,7 @@ std::string render_xml(const Model& m, const XmlKnobs& k, Rng& rng)
         x.nl();
         x.open("name", {}, true, false);
         x.os << t.name << "</name>";
-        x.block("parameter", join_params(t.params), false);
+        x.block("parameter", join_params(t.params, m.old_syntax ? "; " : ", "), false);
         x.block("declaration", join_decls(t.decls), false);
         for (auto& l : t.locs) {
             x.nl();
@@ -422,7 +422,7 @@ std::string render_xta(const Model& m)
     std::ostringstream os;
     os << join_decls(m.gdecls) << "\n";
     for (auto& t : m.templs) {
-        os << "process " << t.name << "(" << join_params(t.params) << ") {\n";
+        os << "process " << t.name << "(" << join_params(t.params, m.old_syntax ? "; " : ", ") << ") {\n";
         if (t.locs.empty()) {  // model fault empty-template
             os << "}\n";
             continue;
@@ -708,7 +708,7 @@ std::string get_block_text(const Model& m, const BlockRef& b)
     switch (b.kind) {
     case BlockRef::GDECL: return join_decls(m.gdecls);
     case BlockRef::TDECL: return join_decls(m.templs[b.templ].decls);
-    case BlockRef::PARAM: return join_params(m.templs[b.templ].params);
+    case BlockRef::PARAM: return join_params(m.templs[b.templ].params, m.old_syntax ? "; " : ", ");
     case BlockRef::SYSTEM: return system_text(m);
     default: return label_of(const_cast<Model&>(m), b)->text;
     }
